@@ -230,20 +230,16 @@ fn around(p: u64, t: u128, max: u128) -> Vec<u128> {
     let p = p as u128;
     let m = t - t % p;
     let mut v = vec![];
-    for base in [m.wrapping_sub(p), m, m + p] {
-        if base > t + p {
-            continue; // wrapped
-        }
-        for d in [-1i128, 0, 1] {
-            let x = base as i128 + d;
-            if x >= 0 && (x as u128) <= max {
-                v.push(x as u128);
+    for base in [m.checked_sub(p), Some(m), m.checked_add(p)].into_iter().flatten() {
+        for x in [base.checked_sub(1), Some(base), base.checked_add(1)].into_iter().flatten() {
+            if x <= max {
+                v.push(x);
             }
         }
     }
     v.push(t.min(max));
     if t >= 1 {
-        v.push(t - 1);
+        v.push((t - 1).min(max));
     }
     v.sort();
     v.dedup();
@@ -404,7 +400,7 @@ fn pats_uint<const N: usize>(rng: &mut StdRng, p: u64, pat: &str) -> Vec<BUint<N
         "ones" => {
             let m = BUint::<N>::MAX;
             let top = m - m % pp;
-            vec![m, m - one, top, top - one, top + one]
+            vec![m, m - one, top, top - one, top.wrapping_add(one)]
         }
         "topbit" => {
             let t = one << (w - 1);
